@@ -293,7 +293,9 @@ def make_system(rng, kind):
         eqs.append((2 * a, 2 * b))
     elif kind == "contradict":
         a, b = rng.choice(eqs)
-        eqs.append((a, b + rng.choice([1, -2, params[1] + 1])))
+        # ... in the constant, or ONLY in a parameter coefficient (x = n and x = 2*n)
+        eqs.append((a, b + rng.choice([1, -2, params[1] + 1, params[0], 2 * params[1],
+                                       params[0] - params[1]])))
         expect = "raise"
     elif kind == "under":
         if n >= 2:
@@ -407,7 +409,9 @@ def rank(rows):
 
 def workload(ctx):
     rng = ctx.rng
-    name_sets = [None, ["x", "y"], ["x"], ["y", "u"]]
+    # configurations: no restriction, lists, and other collection types incl. EMPTY ones (no
+    # targets at all: everything is a parameter, every expression is a constant term)
+    name_sets = [None, ["x", "y"], ["x"], ["y", "u"], [], (), frozenset(), ("x",), {"y", "x"}]
     for i in range(ctx.per_shard(ctx.pick(4000, 80000))):
         subs = rng.random() < 0.25
         e = aff(rng, rng.randint(1, 3), subs)
@@ -422,7 +426,7 @@ def workload(ctx):
         ctx.case(normal.typed_key(e2), True, n=0)
         if i < 2:
             ctx.sample("non-affine", str(e2))
-        for names in (["x", "y"], None):
+        for names in (["x", "y"], None, [], frozenset()):
             ctx.run("C15.collect", (e2, names, False))
     kinds = ["plain", "plain", "dup", "scaled-dup", "contradict", "under", "nonintegral", "missing"]
     for i in range(ctx.per_shard(ctx.pick(2500, 50000))):
